@@ -24,6 +24,15 @@ void run_case(Tape& t, Ctx& ctx, const char* tname) {
   std::string bdesc;
   m.b = gen_breakpoints(t, nseg, &bdesc);
   gen_coeff_rows(t, m, nseg, ncoef);
+  // magnitude classes: as generated; the whole trajectory in tiny units; only the leading coefficients tiny (an evaluation kernel that
+  // treats "almost zero" leading coefficients as zero stays route-consistent and only loses exactness; seeded C03-3)
+  int magcls = t.pickw({6, 1, 1});
+  if (magcls == 1) { double f = pow10i(-t.range(12, 12)) * pow2i(-t.range(0, 20)); for (auto& r : m.rows) for (int d = 0; d < DIM; ++d) r[d] *= f; ctx.label("magnitude:tiny-units"); }
+  else if (magcls == 2 && ncoef >= 2) {
+    double f = pow10i(-12) * pow2i(-t.range(0, 30));
+    for (int sgi = 0; sgi < nseg; ++sgi) for (int d = 0; d < DIM; ++d) { double& v = m.rows[(size_t)sgi * ncoef + ncoef - 1][d]; v = (v == 0 ? 1.0 : v) * f; }
+    ctx.label("magnitude:tiny-leading-coefficient");
+  }
   MatrixType C = model_matrix<DIM, MatrixType>(m);
   bool via_update = t.flag();
   PP pp_ctor(m.b, C, ncoef);
